@@ -265,12 +265,14 @@ pub struct SourceCounters {
 
 #[derive(Debug)]
 struct SourceInner {
-    map: BTreeMap<String, String>,
-    listing: Vec<String>,
+    /// The library's own in-memory source does the storing and the name matching (it is named in
+    /// C19's quantifier); the stub around it only counts, rotates the listing and yields.
+    mem: liquid_core::partials::InMemorySource,
+    listing_rot: usize,
     counters: Mutex<SourceCounters>,
 }
 
-/// The library's "disk": an immutable name → text map with a truthful listing.
+/// The library's "disk": `InMemorySource` behind a counting, yielding wrapper.
 #[derive(Debug, Clone)]
 pub struct SimSource {
     inner: Arc<SourceInner>,
@@ -279,12 +281,11 @@ pub struct SimSource {
 impl SimSource {
     /// `listing_rot` rotates the order in which `names()` lists the partials.
     pub fn new(map: &BTreeMap<String, String>, listing_rot: usize) -> Self {
-        let mut listing: Vec<String> = map.keys().cloned().collect();
-        if !listing.is_empty() {
-            let r = listing_rot % listing.len();
-            listing.rotate_left(r);
+        let mut mem = liquid_core::partials::InMemorySource::new();
+        for (k, v) in map {
+            mem.add(k.clone(), v.clone());
         }
-        SimSource { inner: Arc::new(SourceInner { map: map.clone(), listing, counters: Mutex::new(SourceCounters::default()) }) }
+        SimSource { inner: Arc::new(SourceInner { mem, listing_rot, counters: Mutex::new(SourceCounters::default()) }) }
     }
     pub fn total_reads(&self) -> u64 {
         self.inner.counters.lock().unwrap_or_else(|e| e.into_inner()).total_reads
@@ -302,26 +303,34 @@ impl SimSource {
 
 impl PartialSource for SimSource {
     fn contains(&self, name: &str) -> bool {
-        self.inner.map.contains_key(name)
+        self.inner.mem.contains(name)
     }
 
     fn names(&self) -> Vec<&str> {
-        self.inner.listing.iter().map(|s| s.as_str()).collect()
+        // InMemorySource lists in (random) hash order; the order is unspecified, so fix one and
+        // rotate it per run
+        let mut v = self.inner.mem.names();
+        v.sort_unstable();
+        if !v.is_empty() {
+            let r = self.inner.listing_rot % v.len();
+            v.rotate_left(r);
+        }
+        v
     }
 
     fn try_get<'a>(&'a self, name: &str) -> Option<std::borrow::Cow<'a, str>> {
         sched::yield_point("source.read");
+        let r = self.inner.mem.try_get(name);
         {
             let mut c = self.inner.counters.lock().unwrap_or_else(|e| e.into_inner());
             c.total_reads += 1;
-            if self.inner.map.contains_key(name) {
+            if r.is_some() {
                 *c.reads.entry(name.to_string()).or_insert(0) += 1;
             } else {
                 c.misses += 1;
                 *c.misses_by_name.entry(name.to_string()).or_insert(0) += 1;
             }
         }
-        let r = self.inner.map.get(name).map(|s| std::borrow::Cow::Borrowed(s.as_str()));
         sched::yield_point("source.read.done");
         r
     }
